@@ -65,6 +65,48 @@ def trio_setup(it):
     import lib_trio
     lib_trio.setup_trio(it, ('native', 'native', 'cw20'))
 
+def lair_fresh_setup(it): LL.setup_lair(it, nrec=0, bob=False, distributor='')          # as left by instantiate: no distributor linked yet
+def coll_fresh_setup(it): C10.setup_coll(it, fresh=True)                                  # as left by instantiate: every address blank
+def _created(r):
+    if r.variant != 'Ok': raise PathPruned()
+def vfactory_pop(it):
+    """a factory that has registered a vault for uluna (history: CreateVault by the owner + the instantiate reply)"""
+    from engine.models_cw import instantiate_reply
+    vfactory_setup(it); env = mk_env(it, 10**18)
+    _created(enter(it, 'vault_factory', 'execute', env, mk_info('owner', []), it.mkv(VFX, 'CreateVault', asset_info=nat(it, 'uluna'), fees=it.mk('white_whale_std::fee::VaultFee', protocol_fee=LV.vfee(it, 1),
+                                                                                          flash_loan_fee=LV.vfee(it, 1), burn_fee=LV.vfee(it, 0)), token_factory_lp=False)))
+    _created(enter(it, 'vault_factory', 'reply', env, None, instantiate_reply(1, 'vault_uluna')))
+def pfactory_pop(it):
+    """a factory that has registered the uluna/uusd pair"""
+    from engine.models_cw import instantiate_reply
+    pfactory_setup(it); env = mk_env(it, 10**18); w = it.world
+    for d in ('uluna', 'uusd'):
+        w.smart_table.append(('pool_factory_contract', it.mkv(PN + 'factory::QueryMsg', 'NativeTokenDecimals', denom=Str(d)), it.mk(PN + 'factory::NativeTokenDecimalsResponse', decimals=6)))
+    _created(enter(it, 'terraswap_factory', 'execute', env, mk_info('owner', []), it.mkv(FX, 'CreatePair', asset_infos=Agg('array', [nat(it, 'uluna'), nat(it, 'uusd')]), pool_fees=fee3(it, PN + 'pair::'),
+                                                                                            pair_type=it.mkv(PN + 'asset::PairType', 'ConstantProduct'), token_factory_lp=False)))
+    info = it.mk(PN + 'asset::PairInfo', asset_infos=Agg('array', [nat(it, 'uluna'), nat(it, 'uusd')]), contract_addr=Str('some_pair'), liquidity_token=it.mkv(AI, 'Token', contract_addr=Str('lp_of_some_pair')),
+                 asset_decimals=Agg('array', [6, 6]), pair_type=it.mkv(PN + 'asset::PairType', 'ConstantProduct'))
+    w.smart_table.append(('some_pair', it.mkv(PN + 'pair::QueryMsg', 'Pair'), info))
+    _created(enter(it, 'terraswap_factory', 'reply', env, None, instantiate_reply(1, 'some_pair')))
+def ifactory_pop(it):
+    """a factory that has registered an incentive contract for one LP denom"""
+    from engine.models_cw import instantiate_reply
+    ifactory_setup(it); env = mk_env(it, 10**18)
+    _created(enter(it, 'incentive_factory', 'execute', env, mk_info('owner', []), it.mkv(IFX, 'CreateIncentive', lp_asset=nat(it, 'other_lp_denom'))))
+    _created(enter(it, 'incentive_factory', 'reply', env, None, instantiate_reply(1, 'some_incentive', it.mk(LI.I + 'InstantiateReplyCallback', lp_asset=nat(it, 'other_lp_denom')))))
+
+
+def opts(it, fields):
+    """every optional field of a configuration message independently present or absent: the full power set up to five fields, otherwise
+    {none, each field alone, all}.  fields: [(name, thunk)] -> {name: Some(thunk()) | None}"""
+    c = it.ctx; k = len(fields)
+    if k <= 5:
+        return {n: (SOME(t()) if c.branch(c.symbool('has_' + n), 'has_' + n) else NONE()) for n, t in fields}
+    m = c.sym('optmode', 8, hi=k + 1)
+    idx = c.choose([m == j for j in range(k + 2)], 'optmode')
+    return {n: (SOME(t()) if idx in (j + 1, k + 1) else NONE()) for j, (n, t) in enumerate(fields)}
+
+M = lambda: Str('mallory')
 TX = PN + 'pair::ExecuteMsg'; FX = PN + 'factory::ExecuteMsg'; VFX = 'white_whale_std::vault_network::vault_factory::ExecuteMsg'
 IFX = LI.IF + 'ExecuteMsg'; HX = PN + 'frontend_helper::ExecuteMsg'; EMX = 'white_whale_std::epoch_manager::epoch_manager::ExecuteMsg'
 RX = PN + 'router::ExecuteMsg'; VRX = C06.VR + 'ExecuteMsg'; TRX = PN + 'trio::ExecuteMsg'
@@ -74,11 +116,60 @@ def route(it):
     return it.mk(PN + 'router::SwapRoute', offer_asset_info=nat(it, 'uluna'), ask_asset_info=nat(it, 'uusd'),
                  swap_operations=VecV([it.mkv(PN + 'router::SwapOperation', 'TerraSwap', offer_asset_info=nat(it, 'uluna'), ask_asset_info=nat(it, 'uusd'))]))
 
+def COLL_FIELDS(it):
+    return [('owner', M), ('pool_router', M), ('fee_distributor', M), ('pool_factory', M), ('vault_factory', M), ('take_rate', lambda: DEC(9 * 10**17)), ('take_rate_dao_address', M), ('is_take_rate_active', lambda: True)]
+
 TABLE = [
  ('terraswap_pair', pair_setup, [
     ('UpdateConfig.fees', lambda it: it.mkv(TX, 'UpdateConfig', owner=NONE(), fee_collector_addr=NONE(), pool_fees=SOME(fee3(it, PN + 'pair::')), feature_toggle=NONE()), 'owner'),
     ('UpdateConfig.owner', lambda it: it.mkv(TX, 'UpdateConfig', owner=SOME(Str('mallory')), fee_collector_addr=SOME(Str('mallory')), pool_fees=NONE(),
                                             feature_toggle=SOME(it.mk(PN + 'pair::FeatureToggle', withdrawals_enabled=False, deposits_enabled=False, swaps_enabled=False))), 'owner')]),
+ ('terraswap_pair', pair_setup, [
+    ('UpdateConfig.opts', lambda it: it.mkv(TX, 'UpdateConfig', **opts(it, [('owner', M), ('fee_collector_addr', M), ('pool_fees', lambda: fee3(it, PN + 'pair::')),
+                                            ('feature_toggle', lambda: it.mk(PN + 'pair::FeatureToggle', withdrawals_enabled=False, deposits_enabled=False, swaps_enabled=False))])), 'owner')]),
+ ('vault', vault_setup, [
+    ('UpdateConfig.opts', lambda it: it.mkv(LV.VX, 'UpdateConfig', it.mk(LV.VN + 'UpdateConfigParams', **opts(it, [('flash_loan_enabled', lambda: False), ('deposit_enabled', lambda: False), ('withdraw_enabled', lambda: False),
+                                            ('new_owner', M), ('new_vault_fees', lambda: it.mk('white_whale_std::fee::VaultFee', protocol_fee=LV.vfee(it, 1), flash_loan_fee=LV.vfee(it, 1), burn_fee=LV.vfee(it, 0))),
+                                            ('new_fee_collector_addr', M)]))), 'owner')]),
+ ('whale_lair', lair_setup, [
+    ('UpdateConfig.opts', lambda it: it.mkv(LL.WL + 'ExecuteMsg', 'UpdateConfig', **opts(it, [('owner', M), ('unbonding_period', lambda: U64(1)), ('growth_rate', lambda: DEC(10**17)), ('fee_distributor_addr', M)])), 'owner')]),
+ ('whale_lair', lair_fresh_setup, [
+    ('UpdateConfig.opts.fresh', lambda it: it.mkv(LL.WL + 'ExecuteMsg', 'UpdateConfig', **opts(it, [('owner', M), ('unbonding_period', lambda: U64(1)), ('growth_rate', lambda: DEC(10**17)), ('fee_distributor_addr', M)])), 'owner')]),
+ ('fee_distributor', dist_setup, [
+    ('UpdateConfig.opts', lambda it: it.mkv(LD.FX, 'UpdateConfig', **opts(it, [('owner', M), ('bonding_contract_addr', M), ('fee_collector_addr', M), ('grace_period', lambda: U64(22)), ('distribution_asset', lambda: nat(it, 'uatom')),
+                                            ('epoch_config', lambda: it.mk(C10.EM + 'EpochConfig', duration=U64(86400 * 10**9), genesis_epoch=U64(10**18)))])), 'owner')]),
+ ('fee_collector', coll_setup, [
+    ('UpdateConfig.opts', lambda it: it.mkv(C10.CX, 'UpdateConfig', **opts(it, COLL_FIELDS(it))), 'owner')]),
+ ('fee_collector', coll_fresh_setup, [
+    ('UpdateConfig.opts.fresh', lambda it: it.mkv(C10.CX, 'UpdateConfig', **opts(it, COLL_FIELDS(it))), 'owner')]),
+ ('vault_router', vrouter_setup, [
+    ('UpdateConfig.opts', lambda it: it.mkv(VRX, 'UpdateConfig', **opts(it, [('owner', M), ('vault_factory_addr', M)])), 'owner')]),
+ ('epoch_manager', emgr_setup, [
+    ('UpdateConfig.opts', lambda it: it.mkv(EMX, 'UpdateConfig', **opts(it, [('owner', M), ('epoch_config', lambda: it.mk(C10.EM + 'EpochConfig', duration=U64(86400 * 10**9), genesis_epoch=U64(10**18)))])), 'owner')]),
+ ('terraswap_factory', pfactory_setup, [
+    ('UpdateConfig.opts', lambda it: it.mkv(FX, 'UpdateConfig', **opts(it, [('owner', M), ('fee_collector_addr', M), ('token_code_id', lambda: 1), ('pair_code_id', lambda: 1), ('trio_code_id', lambda: 1)])), 'owner')]),
+ ('terraswap_factory', pfactory_pop, [
+    ('RemovePair.registered', lambda it: it.mkv(FX, 'RemovePair', asset_infos=Agg('array', [nat(it, 'uluna'), nat(it, 'uusd')])), 'owner'),
+    ('MigratePair.registered', lambda it: it.mkv(FX, 'MigratePair', contract=Str('some_pair'), code_id=SOME(99)), 'owner'),
+    ('UpdatePairConfig.registered', lambda it: it.mkv(FX, 'UpdatePairConfig', pair_addr=Str('some_pair'), **opts(it, [('owner', M), ('fee_collector_addr', M), ('pool_fees', lambda: fee3(it, PN + 'pair::')),
+                                            ('feature_toggle', lambda: it.mk(PN + 'pair::FeatureToggle', withdrawals_enabled=False, deposits_enabled=False, swaps_enabled=False))])), 'owner')]),
+ ('vault_factory', vfactory_setup, [
+    ('UpdateConfig.opts', lambda it: it.mkv(VFX, 'UpdateConfig', **opts(it, [('owner', M), ('fee_collector_addr', M), ('vault_id', lambda: 1), ('token_id', lambda: 1)])), 'owner')]),
+ ('vault_factory', vfactory_pop, [
+    ('RemoveVault.registered', lambda it: it.mkv(VFX, 'RemoveVault', asset_info=nat(it, 'uluna')), 'owner'),
+    ('MigrateVaults.registered', lambda it: it.mkv(VFX, 'MigrateVaults', vault_addr=SOME(Str('vault_uluna')), vault_code_id=99), 'owner'),
+    ('MigrateVaults.all', lambda it: it.mkv(VFX, 'MigrateVaults', vault_addr=NONE(), vault_code_id=99), 'owner'),
+    ('UpdateVaultConfig.registered', lambda it: it.mkv(VFX, 'UpdateVaultConfig', vault_addr=Str('vault_uluna'), params=it.mk(LV.VN + 'UpdateConfigParams', flash_loan_enabled=SOME(False), deposit_enabled=NONE(),
+                                                       withdraw_enabled=NONE(), new_owner=SOME(Str('mallory')), new_vault_fees=NONE(), new_fee_collector_addr=NONE())), 'owner')]),
+ ('incentive_factory', ifactory_setup, [
+    ('UpdateConfig.opts', lambda it: it.mkv(IFX, 'UpdateConfig', **opts(it, [('owner', M), ('fee_collector_addr', M), ('fee_distributor_addr', M), ('create_flow_fee', lambda: LI.masset(it, 'native', 'uwhale', 1)),
+                                            ('max_concurrent_flows', lambda: 1), ('incentive_code_id', lambda: 1), ('max_flow_start_time_buffer', lambda: 1), ('min_unbonding_duration', lambda: 86400),
+                                            ('max_unbonding_duration', lambda: 31556926)])), 'owner')]),
+ ('incentive_factory', ifactory_pop, [
+    ('MigrateIncentives.registered', lambda it: it.mkv(IFX, 'MigrateIncentives', incentive_address=SOME(Str('some_incentive')), code_id=99), 'owner'),
+    ('MigrateIncentives.all', lambda it: it.mkv(IFX, 'MigrateIncentives', incentive_address=NONE(), code_id=99), 'owner')]),
+ ('frontend_helper', helper_setup, [
+    ('UpdateConfig.opts', lambda it: it.mkv(HX, 'UpdateConfig', **opts(it, [('incentive_factory_addr', M), ('owner', M)])), 'owner')]),
  ('vault', vault_setup, [
     ('UpdateConfig', lambda it: it.mkv(LV.VX, 'UpdateConfig', it.mk(LV.VN + 'UpdateConfigParams', flash_loan_enabled=SOME(False), deposit_enabled=SOME(False), withdraw_enabled=SOME(False),
                                                                      new_owner=SOME(Str('mallory')), new_vault_fees=NONE(), new_fee_collector_addr=SOME(Str('mallory')))), 'owner'),
@@ -136,6 +227,8 @@ def run_variant(ck, crate, setup, label, mk, designated, prog, known_open=False)
     def body(it):
         c = it.ctx
         setup(it)
+        if not isinstance(getattr(it, 'extra', None), dict): it.extra = {}
+        it.extra['w0'] = len(it.world.writes)          # writes made by the set-up history do not count
         caller = Str(None, sym=c.sym('caller'))
         return enter(it, crate, 'execute', mk_env(it, 10**18), mk_info(ADDR(caller), []), mk(it))
     tag = '%s.%s' % (crate, label)
@@ -159,7 +252,7 @@ def run_variant(ck, crate, setup, label, mk, designated, prog, known_open=False)
             r, _, _ = ck.solve(p.conds + [caller != want], 5000)
             if r == z3.unsat: nok += 1          # rejected for another reason AFTER passing authorisation
             if r != z3.unsat:
-                ck.oblige('C16.%s.reject.no_write' % tag, p, z3.And(caller != want, len(p.world.writes) != 0), 'a rejected attempt writes nothing')
+                ck.oblige('C16.%s.reject.no_write' % tag, p, z3.And(caller != want, len(p.world.writes) > p.extra.get('w0', 0)), 'a rejected attempt writes nothing')
     ck.require(nok >= 1, tag + ': no path on which the designated caller gets past authorisation')
     ck.require(nrej >= 1, tag + ': no rejecting path')
 
